@@ -171,20 +171,22 @@ Proof.
 Qed.
 Print Assumptions C11_union_encode_refuted.
 
-(* ---------- Literal ---------- *)
+(* ---------- Literal (after fix 0e88a65: the class of the value is compared too) ---------- *)
 
-Definition C11_literal_full : Prop :=
-  forall bdec lits v, lit_dec bdec lits v = ref_lit bdec lits v.
-
-Theorem C11_literal_partial : forall bdec lits v, lit_homog bdec lits v = true ->
+(* Literal positions accept exactly their listed values and return the listed constant.
+   lit_nofloat: listed constants are int/bool/str/None/bytes or enum members whose value is not a
+   float (for a float-valued enum member Python's 0.0 == -0.0 is the one remaining difference). *)
+Theorem C11_literal_full : forall bdec lits v, lit_nofloat lits = true ->
   lit_dec bdec lits v = ref_lit bdec lits v.
-Proof. exact lit_dec_partial. Qed.
-Print Assumptions C11_literal_partial.
+Proof. exact lit_dec_full. Qed.
+Print Assumptions C11_literal_full.
 
-Theorem C11_literal_non_numeric : forall bdec lits v, num_val v = None ->
-  lit_dec bdec lits v = ref_lit bdec lits v.
-Proof. intros; apply lit_dec_partial; apply non_numeric_homog; assumption. Qed.
-Print Assumptions C11_literal_non_numeric.
+(* serializing a Literal position: the branch of the listed constant equal to the value, packed
+   like a value of its class; anything else raises *)
+Theorem C11_literal_encode_full : forall benc lits v, lit_nofloat lits = true ->
+  lit_enc benc lits v = ref_lit_enc benc lits v.
+Proof. exact lit_enc_full. Qed.
+Print Assumptions C11_literal_encode_full.
 
 Theorem C11_literal_returns_listed : forall bdec lits v c, lit_dec bdec lits v = Some c ->
   exists l, In l lits /\ c = lit_const l /\ lit_match bdec v l = true.
@@ -196,18 +198,13 @@ Theorem C11_literal_accepts_listed : forall bdec lits v l, In l lits -> lit_stri
 Proof. exact lit_dec_accepts_listed. Qed.
 Print Assumptions C11_literal_accepts_listed.
 
-(* Literal[1, True] <- True returns the int 1; Literal[1] <- 1.0 is accepted *)
-Theorem C11_literal_refuted : ~ C11_literal_full.
-Proof.
-  intro H. specialize (H (fun _ => None) [LInt 1; LBool true] (UBool true)). discriminate H.
-Qed.
-Print Assumptions C11_literal_refuted.
-
-Lemma C11_literal_witness :
-  lit_dec (fun _ => None) [LInt 1; LBool true] (UBool true) = Some (UInt 1) /\
-  ref_lit (fun _ => None) [LInt 1; LBool true] (UBool true) = Some (UBool true) /\
-  lit_dec (fun _ => None) [LInt 1] (UFloat (Some 1) "1.0") = Some (UInt 1) /\
-  ref_lit (fun _ => None) [LInt 1] (UFloat (Some 1) "1.0") = None.
+(* the inputs of the repaired finding: Literal[1, True] <- True, Literal[1] <- 1.0 / True *)
+Lemma C11_literal_cross_type_rejected :
+  lit_dec (fun _ => None) [LInt 1; LBool true] (UBool true) = Some (UBool true) /\
+  lit_dec (fun _ => None) [LInt 1] (UFloat (Some 1) "1.0") = None /\
+  lit_dec (fun _ => None) [LInt 1] (UBool true) = None /\
+  lit_dec (fun _ => None) [LEnum (UInt 1) (UObj "Lvl" "<Lvl.LO: 1>")] (UBool true) = None /\
+  lit_enc (fun _ => None) [LEnum (UInt 1) (UObj "Num" "<Num.ONE: 1>"); LBool true] (UBool true) = Some (Some (UBool true)).
 Proof. repeat split; reflexivity. Qed.
 
 (* ---------- non-vacuity: the hypotheses hold on non-trivial instances ---------- *)
@@ -234,9 +231,11 @@ Example C11_encode_nonvacuous :
 Proof. cbv zeta. repeat split; reflexivity. Qed.
 
 Example C11_literal_nonvacuous :
-  lit_homog (fun _ => None) [LInt 1; LStr "a"; LNone] (UStr "a") = true /\
-  lit_dec (fun _ => None) [LInt 1; LStr "a"; LNone] (UStr "a") = Some (UStr "a") /\
-  lit_homog (fun _ => None) [LInt 1; LStr "a"; LNone] (UInt 1) = true /\
-  lit_homog (fun _ => None) [LInt 1; LStr "a"; LNone] (UBool true) = false /\
-  lit_dec (fun _ => None) [LInt 1; LStr "a"; LNone] (UInt 2) = None.
-Proof. repeat split; reflexivity. Qed.
+  let lits := [LInt 1; LStr "a"; LNone; LEnum (UStr "r") (UObj "Color" "<Color.RED: 'r'>")] in
+  lit_nofloat lits = true /\
+  lit_dec (fun _ => None) lits (UStr "a") = Some (UStr "a") /\
+  lit_dec (fun _ => None) lits (UStr "r") = Some (UObj "Color" "<Color.RED: 'r'>") /\
+  lit_dec (fun _ => None) lits (UInt 2) = None /\
+  lit_enc (fun _ => None) lits (UObj "Color" "<Color.RED: 'r'>") = Some (Some (UStr "r")) /\
+  lit_enc (fun _ => None) lits (UInt 2) = None.
+Proof. cbv zeta. repeat split; reflexivity. Qed.
